@@ -111,6 +111,8 @@ def run(ctx):
         ctx.unit = fl
         rule1(ctx, fl)
         rule2(ctx, fl)
+        from . import c03
+        c03.rule_handover(ctx, fl, rule='C08.3', only=['myth_uncond_signal_body', 'myth_uncond_wait_cb'])
 
 
 SYNC = 'src/myth_sync_func.h'
@@ -123,6 +125,10 @@ MUTANTS = [
      'edits': [(SYNC, "  myth_thread_t to_wake = u->th;\n  while (!to_wake) {\n    to_wake = u->th;\n  }\n  to_wake->env = env;", "  myth_thread_t to_wake = u->th;\n  if (!to_wake) return 0;\n  to_wake->env = env;")]},
     {'name': 'signal never clears the slot', 'expect': 'C08.2',
      'edits': [(SYNC, "  to_wake->env = env;\n  u->th = 0;\n  myth_queue_push(&env->runnable_q, to_wake);\n  return 0;", "  to_wake->env = env;\n  myth_queue_push(&env->runnable_q, to_wake);\n  return 0;")]},
+    {'name': 'signal rebinds the waiter after pushing it (seed C08/m1)', 'expect': 'C08.3',
+     'edits': [(SYNC, "  to_wake->env = env;\n  u->th = 0;\n  myth_queue_push(&env->runnable_q, to_wake);\n  return 0;", "  u->th = 0;\n  myth_queue_push(&env->runnable_q, to_wake);\n  to_wake->env = env;\n  return 0;")]},
+    {'name': 'wait callback touches the waiter after publishing it (seed C08/m3)', 'expect': 'C08.3',
+     'edits': [(SYNC, "  myth_thread_t cur = arg2;\n  u->th = cur;\n}", "  myth_thread_t cur = arg2;\n  u->th = cur;\n  cur->env = NULL;\n}")]},
     {'name': 'wait hands the next thread to the callback', 'expect': 'C08.1',
      'edits': [(SYNC, "\t\t\t     myth_uncond_wait_cb, u, cur, 0);", "\t\t\t     myth_uncond_wait_cb, u, env->this_thread, 0);")]},
 ]
